@@ -839,8 +839,6 @@ def ref_eval(t, ent, db, live):
             if not _balanced(d):
                 raise _OutOfDomain()
             txt = _strip_braces(d)
-        if t[2] == 9:
-            raise _OutOfDomain()
         live.append(('field', name, t[2], t[3], v))
         return txt
     if k == 7:
@@ -1099,7 +1097,7 @@ def oracle_bib(arg, out):
                 _, name, af, raw, v = leaf
                 frag = v if raw else _strip_braces(_dec(v))
                 # the decoded value is normalised by the parser only through brace removal
-                if not _contains_folded(text, frag, af == 5):
+                if not _contains_folded(text, frag, af in (5, 9)):
                     return 'field %r of %r (%r) does not appear in the rendered text %r' % (name, key, v, text)
                 if not raw:
                     for seg in _protected_segments(_dec(v)):
@@ -1275,7 +1273,60 @@ def _f27(kind, fn, arg, detail):
                 return False
     return False
 
-KNOWN_SIGNATURES = {'F12': _f12, 'F24': _f24, 'F30': _f27}
+def _f30_shape(kind, fn, arg, detail):
+    """the same finding seen structurally: the bare literal 'In' of the inproceedings / incollection templates"""
+    return (kind == 'extra' and fn == 'template_blocks_are_sentences' and isinstance(arg, dict)
+            and arg.get('type') in ('inproceedings', 'incollection') and arg.get('offender') == "literal 'In'")
+
+KNOWN_SIGNATURES = {'F12': _f12, 'F24': _f24, 'F30': lambda *a: _f27(*a) or _f30_shape(*a)}
+
+# ------------------------------------------------------------------------------------------
+# structural check of the dumped templates: every block an entry can end with is a sentence
+NODE_NAMES = {4: 'together', 6: 'field', 7: 'names', 9: 'optional_field', 10: 'tag', 11: 'href', 14: 'name_part', 15: 'unknown node'}
+def shape_offenders(t, ent):
+    """the parts of a dumped tree whose value need not be empty or end with . ? ! although the entry can end with them"""
+    k = t[0]
+    if k == 0:
+        txt = flat_plain(unFL(t[2]))
+        return [] if (txt == '' or txt[-1] in '.?!') else ['literal %r' % txt]
+    if k == 1:
+        return []
+    if k == 5:
+        return [] if t[3] else ['sentence(add_period=False)']
+    if k in (2, 3, 13, 8, 12):
+        cs = t[4] if k == 2 else t[2] if k == 3 else t[1]
+        return [o for c in cs for o in shape_offenders(c, ent)]
+    if k in (6, 7) and _get_ci(ent[3] if k == 7 else ent[2], S(t[1])) is None and (k == 7 or _get_ci(ent[3], S(t[1])) is None):
+        return []          # raises FieldIsMissing for this entry: it cannot be the end of a rendered entry
+    if k in (6, 9, 7):
+        return ['%s(%r)' % (NODE_NAMES[k], S(t[1]))]
+    return [NODE_NAMES.get(k, 'node %d' % k)]
+
+def extra_checks(ck, tier, rng):
+    fails = []; n = 0
+    seen = set()
+    for fs in range(4):
+        cfg = norm([fs, None, None, None, 0, 2, 1])
+        for typ in TYPES:
+            fnames, froles = type_fields(typ)
+            for eds, auth in ((1, 1), (2, 1), (0, 1), (1, 0), (0, 0)):
+                pers = ([['editor', [P(last=['E'])] * eds]] if eds else []) + ([['author', [P(last=['A'])]]] if auth else [])
+                e = norm(['k', typ, [[f, 'v'] for f in fnames], pers])
+                t = _templates_for(cfg, [e])[0][1]
+                n += 1
+                if not t:
+                    continue
+                for off in shape_offenders(t[0], e):
+                    key = (typ, off)
+                    if key in seen:
+                        continue
+                    seen.add(key)
+                    fails.append(({'style': FSTYLES[fs], 'type': typ, 'offender': off},
+                                  'the %s template of %s can end with %s, which is not inside a sentence: an entry whose last '
+                                  'non-empty part it is does not end with a sentence terminator' % (typ, FSTYLES[fs], off), False))
+    yield {'name': 'template_blocks_are_sentences', 'evaluations': n, 'failures': fails,
+           'info': 'every part of every dumped entry template that can be the last non-empty part of the entry is a sentence(add_period=True) (or a literal ending in . ? !)'}
+
 
 def replay_known(finding):
     p = finding.get('pinned')
@@ -1297,8 +1348,9 @@ PRELASTS = ['von', 'de', 'la', 'Van', 'd']
 LASTS = ['Smith', 'Berg', 'McDonald', "O'Neil", '{AB}c', 'Li', 'a', 'Ba', 'B', 'A', 'Zed-Why', 'smith', '{\\O}re'[:0] + 'Ore']
 LINEAGES = ['Jr', 'III', 'jr.']
 WORDS = ['alpha', 'Beta', 'GAMMA', '{Delta}', 'e{P}silon', 'x-y', 'a--b', 'end.', 'what?', 'Wow!', 'of', 'a', '12', '3', 'IV',
-         'The', '{A {B} c}', 'ab{}', 'Q', 'zeta:', '(eta)', 'A.', 'é'[:0] + 'Theta', "it's", '{}', 'p,q']
-PAGES = ['12--34', '5-7', '9', '1---2', '-3', 'x{-}y', '4-', '10--', '', 'iv-ix', '{1-2}-3']
+         'The', '{A {B} c}', 'ab{}', 'Q', 'zeta:', '(eta)', 'A.', '"no."', '(cite!)', 'why?]', 'é'[:0] + 'Theta', "it's", '{}', 'p,q']
+PAGES = ['12--34', '5-7', '9', '1---2', '-3', 'x{-}y', '4-', '10--', '', 'iv-ix', '{1-2}-3',
+         '3-7,21-30,44', '1-2-3', '10-12, 15-17', '5+', '12+-14', 'a-b-c-d', '7-9 + 11-13']
 YEARS = ['1999', '99', '2001a', '', 'n.d.', '2000', '1', '{1984}', '1999']
 ROLES = ['author', 'editor']
 ALLFIELDS = ['title', 'journal', 'volume', 'number', 'pages', 'month', 'year', 'note', 'url', 'urldate', 'eprint', 'pubmed', 'doi',
@@ -1372,6 +1424,47 @@ def _walk_tree(t, names, roles):
         for c in t[kids]:
             _walk_tree(c, names, roles)
 
+def plain_value(rng, field):
+    """a value that does not end with a sentence terminator"""
+    if field == 'pages': return rng.choice(['12-15', '3-7,21-30,44', '9', '1-2-3', '5+'])
+    if field == 'year': return rng.choice(['1999', '2001a'])
+    if field in ('volume', 'number', 'chapter'): return rng.choice(['1', '12', 'IV'])
+    if field in ('url', 'doi', 'eprint', 'pubmed'): return rng.choice(['http://a.b/c', '10.1/x-y', '1234'])
+    # (values ending in a terminator followed by a closing quote / bracket are NOT terminated)
+    return rng.choice(['alpha Beta', 'GAMMA of {Delta}', 'see e{P}silon', 'x-y', 'zeta (eta)', 'he said "no."', '(do not cite!)', "why?'", 'end.]'])
+
+_BASES = {}
+def minimal_base(typ):
+    """(fields, roles, others): a minimal set of the fields / roles the type's templates read with which the entry
+    renders (computed from the dumped trees by the reference reading), and the remaining ones"""
+    if typ in _BASES:
+        return _BASES[typ]
+    fnames, froles = type_fields(typ)
+    cfg = norm([0, None, None, None, 0, 2, 1])
+    def ok(fl, rl):
+        e = norm(['k', typ, [[f, 'v'] for f in fl], [[r, [P(last=['A'])]] for r in rl]])
+        t = templates_for(cfg, [e])[0][1]
+        if not t:
+            return False
+        try:
+            ref_eval(t[0], e, [e], [])
+            return True
+        except _Missing:
+            return False
+        except _OutOfDomain:
+            return False
+    fl, rl = list(fnames), list(froles)
+    if not ok(fl, rl):
+        _BASES[typ] = ([], [], [])
+        return _BASES[typ]
+    for x in list(froles) + list(fnames):
+        f2 = [f for f in fl if f != x]; r2 = [r for r in rl if r != x]
+        if ok(f2, r2):
+            fl, rl = f2, r2
+    others = [f for f in fnames if f not in fl] + [r for r in froles if r not in rl]
+    _BASES[typ] = (fl, rl, others)
+    return _BASES[typ]
+
 def rand_entry(rng, key, typ=None, present=None, proles=None, keys_for_xref=()):
     typ = typ or rng.choice(TYPES)
     fnames, froles = type_fields(typ) if typ in TYPES else (ALLFIELDS[:6], ROLES)
@@ -1429,7 +1522,7 @@ EM = lambda s: [[[0, ord(c)], [[0, norm('em')]]] for c in s]
 def leaf_pool():
     return [L('x'), L(''), L('Ab'), L('abc.'), [1], FLD('a'), FLD('b'), FLD('zz'), OFLD('zz'), OFLD('a', 3), FLD('p', 5), FLD('a', 1),
             FLD('u', 0, 1), [7, norm('author'), FL(', '), [FL(' and ')], [FL(', and ')]], [7, norm('editor'), FL(', '), [], []],
-            LR(fl_sym('nbsp')), LR(fl_str('q') + PROT('R') + EM('s!')), FLD('e'), OFLD('t', 4)]
+            LR(fl_sym('nbsp')), LR(fl_str('q') + PROT('R') + EM('s!')), FLD('e'), OFLD('t', 4), L('no.)'), L('x?"')]
 
 ENT2 = ['Key1', 'misc', [['a', 'hello {W}orld'], ['b', 'B?'], ['p', '1--2-3'], ['u', 'http://x/{y}'], ['e', ''], ['t', 'the Title'], ['crossref', 'par']],
         [['author', [P(['John'], ['Q.'], ['von'], ['Smith'], ['Jr']), P(['Ann'], [], [], ['Li'])]]]]
@@ -1570,6 +1663,20 @@ def _gen(tier, rng):
                 if rng.random() < 0.5:
                     e = rand_entry(rng, rng.choice(KEYS), typ, pat, proles)
                     yield ('type_patterns', 1, [rand_cfg(rng, strict=1), [e], None])
+    # ---- every type: the minimal set of fields that renders, plus each further field / role alone (thorough: pairs),
+    #      with values that do not end in a terminator -- the terminator has to come from the template
+    for typ in TYPES:
+        base_f, base_r, others = minimal_base(typ)
+        extras = [[x] for x in others]
+        if not quick:
+            extras += [[a, b] for i, a in enumerate(others) for b in others[i + 1:]]
+        extras.append([])
+        for ex in extras:
+            fl = base_f + [x for x in ex if x not in ROLES]
+            rl = base_r + [x for x in ex if x in ROLES]
+            e = [rng.choice(KEYS), typ, [[f, plain_value(rng, f)] for f in fl],
+                 [[r, [P(['Ann'], [], [], ['Author'])] * rng.choice([1, 2])] for r in rl]]
+            yield ('type_base_plus_optional', 1, [rand_cfg(rng, strict=1), [e], None])
     # ---- random databases
     for i in range(1200 if quick else 6000):
         db = rand_db(rng, rng.choice([1, 2, 3, 3, 4, 5, 6]))
